@@ -54,7 +54,7 @@ type sinkRWC struct {
 	closed bool
 }
 
-func newSink() *sinkRWC { return &sinkRWC{in: newByteQueue()} }
+func newSink() *sinkRWC                       { return &sinkRWC{in: newByteQueue()} }
 func (s *sinkRWC) Read(p []byte) (int, error) { return s.in.Read(p) }
 func (s *sinkRWC) Write(p []byte) (int, error) {
 	s.mu.Lock()
@@ -80,11 +80,11 @@ func (s *sinkRWC) snapshot() []byte {
 }
 
 type writeObs struct {
-	Wire     []byte
-	Errs     []string // per op: "" or error text
-	Mutated  string   // description if a caller buffer was modified
-	Panic    string
-	Thresh   int
+	Wire    []byte
+	Errs    []string // per op: "" or error text
+	Mutated string   // description if a caller buffer was modified
+	Panic   string
+	Thresh  int
 }
 
 func runWriteCase(c *WriteCase) *writeObs {
